@@ -339,7 +339,10 @@ def mixin_families(tier):
     return fam
 
 
-OTHER_SITES = [          # variable cycles met at other evaluation sites: must be a result or a CompilationError
+MUST_ERROR = {'guard', 'guard-self-expr', 'guard-arg', 'guard-3cycle', 'mixin-arg', 'mixin-arg-expr', 'mixin-default', 'mixin-default-self', 'call-arg', 'string',
+              'url', 'escape', 'selector', 'selector-string', 'media', 'media-value', 'expr-self', 'expr-mutual', 'paren-self', 'nested-block-value',
+              'keyframes-value', 'mixin-body-value'}
+OTHER_SITES = [          # variable cycles met at other evaluation sites: must be a result or a CompilationError; those in MUST_ERROR use the cycle
     ('guard', '@a: @b;\n@b: @a;\n.m() when (@a > 0){w:1}\n.a{.m();}'),
     ('mixin-arg', '.m(@p){w:@p}\n@a: @b;\n@b: @a;\n.x{.m(@a);}'),
     ('mixin-default', '.m(@x: @y, @y: @x){w:@x}\n.a{.m();}'),
@@ -352,6 +355,14 @@ OTHER_SITES = [          # variable cycles met at other evaluation sites: must b
     ('selector-string', '@a: "@{b}";\n@b: "@{a}";\n.x-@{a}{w:1}'),
     ('property-name', '@a: @b;\n@b: @a;\n.x{@{a}:1}'),
     ('media', '@a: @b;\n@b: @a;\n@media @a{.x{w:1}}'),
+    ('guard-self-expr', '@x: @x + 1;\n.m() when (@x > 0){w:1}\n.b{.m();}'),
+    ('guard-arg', '@x: @y;\n@y: @x;\n.m(@a) when (@a > 0){w:1}\n.b{.m(@x);}'),
+    ('guard-3cycle', '@p: @q;\n@q: @r;\n@r: @p;\n.m() when (@q > 0){w:1}\n.m() when (default()){w:2}\n.b{.m();}'),
+    ('mixin-arg-expr', '.m(@p){w:@p}\n@a: @b;\n@b: @a;\n.x{.m(@a + 1);}'),
+    ('media-value', '@a: @b;\n@b: @a;\n@media (min-width: @a){.x{w:1}}'),
+    ('nested-block-value', '@a: @b;\n@b: @a;\n.o{.i{.j{w:@a}}}'),
+    ('keyframes-value', '@a: @b;\n@b: @a;\n@keyframes k{from{top:@a}}'),
+    ('mixin-body-value', '@a: @b;\n@b: @a;\n.m(){w:@a}\n.x{.m;}'),
     ('unused', '@a: @b;\n@b: @a;\n.x{y:1px}'),
     ('indirect', '@a: "a";\n.x{w:@@a}'),
     ('expr-self', '@a: @a + 1;\n.x{w:@a}'),
@@ -610,6 +621,9 @@ def run(tier):
         cl = classify(r)
         if cl[0] == 'other' or r[0] == 'timeout' or too_slow(secs, len(r[1]) if r[0] == 'ok' else 0):
             chk.violation({'kind': 'site', 'label': label, 'source': src[:2000], 'problem': 'ended as %r after %.1f s' % (cl, secs)})
+        elif label in MUST_ERROR and cl[0] == 'ok':
+            chk.violation({'kind': 'site', 'label': label, 'source': src[:2000],
+                           'problem': 'variables defined in terms of each other are evaluated here, but the sheet compiled without an error: %r' % cl[1][:200]})
     chk.cov['rule'] = ('%d variable definition sets (random graphs of 1-8 variables with nested expressions: acyclic, arbitrary, with undefined names; '
                        'nesting chains 120-135; reference chains 10-400; cycles of length 1-40 behind a prefix), %d import graphs on disk (random 1-6 '
                        'files, chains 1-13, closed chains), %d mixin recursion programs (self, nested, cycles of length k, count-downs n, fan-out), '
@@ -640,6 +654,8 @@ def replay(path):
         print('problem recorded:', d.get('problem'))
         cl = classify(r)
         bad = cl[0] == 'other' or r[0] == 'timeout'
+        if 'compiled without an error' in d.get('problem', ''):
+            bad = bad or cl[0] == 'ok'
         if d['kind'] == 'mixins' and 'not reported' in d.get('problem', ''):
             bad = bad or cl[0] == 'ok'
         if d['kind'] == 'vars' and 'expected the recursive' in d.get('problem', ''):
